@@ -132,6 +132,12 @@ func (p *solutionPlanStopsUnitImpl) UnPlan() (bool, error) {
 
 	solution := p.Solution().(*solutionImpl)
 
+	// A plan unit that is fixed because one of its units is, stays as it is:
+	// its other units are not un-planned either.
+	if solution.unwrapRootPlanUnit(p).IsFixed() {
+		return false, nil
+	}
+
 	solution.Model().OnUnPlan(p)
 
 	if planUnitsUnit, isMemberOf := p.modelPlanStopsUnit.PlanUnitsUnit(); isMemberOf {
